@@ -48,7 +48,7 @@ def oracle(case):
     try:
         with quiet():
             import nifty.cl as ift
-            return _creal(case, ift) if kind == "creal" else _jaxop(case, ift)
+            return _creal(case, ift) if kind == "creal" else (_mlin(case, ift) if kind == "mlin" else _jaxop(case, ift))
     except Exception as e:
         return (f"{kind}: raised {type(e).__name__} in {err_site(e)}: {str(e)[:140]}",
                 {"site": "aux:" + kind, "kind": "error:" + type(e).__name__, "where": err_site(e)})
@@ -215,4 +215,78 @@ def _jaxop(case, ift):
                   for g in (lin.jac.adjoint_times(mo(e)) for e in np.eye(2 * n))]).T
     if not _close(A, J.T, 1e-11):
         return ("jaxop[multi]: adjoint Jacobian is not the transpose", dict(sig, kind="adjoint"))
+    return None
+
+
+# ---------------------------------------------------------------------------------------------- multi-domain Linearization arithmetic
+def gen_mlin(rng, n):
+    out = []
+    dy = lambda: rng.randint(-12, 12) / 8
+    for _ in range(n):
+        na, nb = rng.choice([1, 2, 3]), rng.choice([1, 2])
+        out.append(dict(aux="mlin", xa=[dy() for _ in range(na)], xb=[dy() for _ in range(nb)],
+                        ca=[dy() for _ in range(na)], cb=[dy() for _ in range(nb)],
+                        op=rng.choice(["vdot", "vdot_field", "div", "rdiv", "sub_field", "rsub_field", "neg", "scalar", "ptw", "pow", "mul_field"]),
+                        f=rng.choice(["exp", "sin", "tanh"])))
+    return out
+
+
+def _mlin(case, ift):
+    """arithmetic of Linearization objects whose VALUES are MultiFields ({p: f(a), q: g(b)}), against NumPy"""
+    xa, xb = np.array(case["xa"]), np.array(case["xb"])
+    ca, cb = np.array(case["ca"]), np.array(case["cb"])
+    na, nb = xa.size, xb.size
+    da, db = ift.DomainTuple.make(ift.UnstructuredDomain(na)), ift.DomainTuple.make(ift.UnstructuredDomain(nb))
+    x = ift.MultiField.from_dict({"a": ift.makeField(da, xa), "b": ift.makeField(db, xb)})
+    lin = ift.Linearization.make_var(x)
+    f = {"exp": np.exp, "sin": np.sin, "tanh": np.tanh}[case["f"]]
+    A = lin.ptw(case["f"])                          # {a: f(xa), b: f(xb)}
+    B = lin * 0.5 + ift.MultiField.from_dict({"a": ift.makeField(da, ca), "b": ift.makeField(db, cb)})
+    cf = ift.MultiField.from_dict({"a": ift.makeField(da, ca + 2.5), "b": ift.makeField(db, cb + 2.5)})
+    cat = lambda u, v: np.concatenate([u, v])
+    Av = lambda z: cat(f(z[:na]), f(z[na:]))
+    Bv = lambda z: cat(0.5 * z[:na] + ca, 0.5 * z[na:] + cb)
+    cv = cat(ca + 2.5, cb + 2.5)
+    op = case["op"]
+    if op == "vdot":
+        r, ref = A.vdot(B), (lambda z: np.array([np.sum(Av(z) * Bv(z))]))
+    elif op == "vdot_field":
+        r, ref = A.vdot(cf), (lambda z: np.array([np.sum(Av(z) * cv)]))
+    elif op == "div":
+        r, ref = A / (B * B + 1.0), (lambda z: Av(z) / (Bv(z) ** 2 + 1))
+    elif op == "rdiv":
+        r, ref = 2.0 / (A * A + 1.0) if False else (A * A + 1.0).ptw("reciprocal") * 2.0, (lambda z: 2.0 / (Av(z) ** 2 + 1))
+    elif op == "sub_field":
+        r, ref = A - cf, (lambda z: Av(z) - cv)
+    elif op == "rsub_field":
+        r, ref = cf - A, (lambda z: cv - Av(z))
+    elif op == "neg":
+        r, ref = -A, (lambda z: -Av(z))
+    elif op == "scalar":
+        r, ref = 3.0 * A - B * 0.25, (lambda z: 3 * Av(z) - 0.25 * Bv(z))
+    elif op == "ptw":
+        r, ref = (A + B).ptw("tanh"), (lambda z: np.tanh(Av(z) + Bv(z)))
+    elif op == "pow":
+        r, ref = (A * A + 1.0) ** 1.5, (lambda z: (Av(z) ** 2 + 1) ** 1.5)
+    else:
+        r, ref = A * cf, (lambda z: Av(z) * cv)
+    sig = {"site": "aux:mlin", "mop": op}
+    z0 = cat(xa, xb)
+    flat = lambda fld: (cat(_arr(fld["a"]).ravel(), _arr(fld["b"]).ravel()) if hasattr(fld, "keys") else _arr(fld).ravel())
+    if not _close(flat(r.val).astype(float), ref(z0), 1e-11):
+        return (f"mlin[{op}]: value differs from the NumPy reference", dict(sig, kind="value"))
+    mk = lambda w: ift.MultiField.from_dict({"a": ift.makeField(da, w[:na]), "b": ift.makeField(db, w[na:])})
+    J = np.array([flat(r.jac(mk(e))) for e in np.eye(na + nb)]).T.astype(float)
+    FD = np.real(_fd_real(lambda z: ref(np.real(z)).astype(complex), z0.astype(complex), [e.astype(complex) for e in np.eye(na + nb)]))
+    if not _close(J, FD, 5e-6):
+        return (f"mlin[{op}]: Jacobian differs from finite differences (max dev {np.max(np.abs(J - FD)):.3g})", dict(sig, kind="jacobian"))
+    m = J.shape[0]
+    tgt = r.jac.target
+    if hasattr(tgt, "keys"):
+        ys = [mk(e) for e in np.eye(m)]
+    else:
+        ys = [ift.makeField(tgt, e.reshape(tgt.shape) if len(tgt.shape) else e[0]) for e in np.eye(m)]
+    Aj = np.array([flat(r.jac.adjoint_times(y)) for y in ys]).T.astype(float)
+    if not _close(Aj, J.T, 1e-11):
+        return (f"mlin[{op}]: adjoint Jacobian is not the transpose", dict(sig, kind="adjoint"))
     return None
